@@ -389,3 +389,9 @@ type KFloat struct {
 	V  float64
 	W  float32
 }
+
+type KUnixPtr struct {
+	ID uint
+	V  *int64  `gorm:"serializer:unixtime;type:time"`
+	W  *uint32 `gorm:"serializer:unixtime;type:time"`
+}
